@@ -653,6 +653,8 @@ impl<'a> Parser<'a> {
                         _ => {}
                     },
                     _ => {
+                        // not part of the statement (`;` or end of input): leave it in the stream
+                        self.prev_token();
                         break;
                     }
                 }
@@ -3749,14 +3751,14 @@ impl<'a> Parser<'a> {
         let (mut table_flag, mut options, mut has_as, mut query) = (None, vec![], false, None);
         if self.parse_keyword(Keyword::TABLE) {
             let table_name = self.parse_object_name(false)?;
-            if self.peek_token().token != Token::EOF {
+            if !matches!(self.peek_token().token, Token::EOF | Token::SemiColon) {
                 if let Token::Word(word) = self.peek_token().token {
                     if word.keyword == Keyword::OPTIONS {
                         options = self.parse_options(Keyword::OPTIONS)?
                     }
                 };
 
-                if self.peek_token().token != Token::EOF {
+                if !matches!(self.peek_token().token, Token::EOF | Token::SemiColon) {
                     let (a, q) = self.parse_as_query()?;
                     has_as = a;
                     query = Some(q);
@@ -3782,14 +3784,14 @@ impl<'a> Parser<'a> {
             table_flag = Some(self.parse_object_name(false)?);
             if self.parse_keyword(Keyword::TABLE) {
                 let table_name = self.parse_object_name(false)?;
-                if self.peek_token() != Token::EOF {
+                if !matches!(self.peek_token().token, Token::EOF | Token::SemiColon) {
                     if let Token::Word(word) = self.peek_token().token {
                         if word.keyword == Keyword::OPTIONS {
                             options = self.parse_options(Keyword::OPTIONS)?
                         }
                     };
 
-                    if self.peek_token() != Token::EOF {
+                    if !matches!(self.peek_token().token, Token::EOF | Token::SemiColon) {
                         let (a, q) = self.parse_as_query()?;
                         has_as = a;
                         query = Some(q);
@@ -8281,7 +8283,7 @@ impl<'a> Parser<'a> {
                 Token::Word(w) => {
                     idents.push(w.to_ident());
                 }
-                Token::EOF | Token::Eq => break,
+                Token::EOF | Token::Eq | Token::SemiColon => break,
                 _ => {}
             }
             self.next_token();
